@@ -398,9 +398,12 @@ void run_exec(const Scenario& sc, const std::vector<Switch>& sched_in, vh::Rng* 
   for (const auto& p : sc.progs)
     for (const auto& op : p)
       if (op.kind == 'g' || op.kind == 'i' || op.kind == 'r') universe.insert(op.k);
+  // point lookups of every key any thread used (a misplaced leaf is found by a scan, not by get)
+  std::string gets;
   for (auto k : universe) {
     const auto r = db->get(k);
-    ex.main_spins += r.has_value() ? 0 : 0;
+    if (!gets.empty()) gets += ',';
+    gets += "[" + std::to_string(k) + "," + (r.has_value() ? "1," + std::to_string(val_id(raw_span(*r))) : "0,-1") + "]";
   }
   std::string ks, vals;
   long nk = 0;
@@ -433,11 +436,25 @@ void run_exec(const Scenario& sc, const std::vector<Switch>& sched_in, vh::Rng* 
   unodb::this_thread().quiescent();
   const auto mem = db->get_current_memory_use();
   const auto held = ex.held;
+  std::string st;
+  {
+    using unodb::node_type;
+    st = std::to_string(db->template get_node_count<node_type::LEAF>()) + "," +
+         std::to_string(db->template get_node_count<node_type::I4>()) + "," +
+         std::to_string(db->template get_node_count<node_type::I16>()) + "," +
+         std::to_string(db->template get_node_count<node_type::I48>()) + "," +
+         std::to_string(db->template get_node_count<node_type::I256>());
+  }
+  const std::string sizes = std::to_string(sizeof(unodb::detail::olc_inode_4<std::uint64_t, unodb::value_view>)) + "," +
+                            std::to_string(sizeof(unodb::detail::olc_inode_16<std::uint64_t, unodb::value_view>)) + "," +
+                            std::to_string(sizeof(unodb::detail::olc_inode_48<std::uint64_t, unodb::value_view>)) + "," +
+                            std::to_string(sizeof(unodb::detail::olc_inode_256<std::uint64_t, unodb::value_view>));
+  const auto leafbase = Db::leaf_type::compute_size(0, 0);
   db.reset();
   unodb::this_thread().quiescent();
   unodb::this_thread().quiescent();
-  ex.log("{\"e\":\"final\",\"keys\":[" + ks + "],\"vals\":[" + vals + "],\"held\":" + std::to_string(held) + ",\"mem\":" +
-         std::to_string(mem) + ",\"leaked\":" + std::to_string(ex.held) + ",\"locked\":0,\"back\":" + std::to_string(back) + "}");
+  ex.log("{\"e\":\"final\",\"keys\":[" + ks + "],\"vals\":[" + vals + "],\"gets\":[" + gets + "],\"held\":" + std::to_string(held) + ",\"mem\":" +
+         std::to_string(mem) + ",\"st\":[" + st + "],\"sizes\":[" + sizes + "],\"leafbase\":" + std::to_string(leafbase) + ",\"leaked\":" + std::to_string(ex.held) + ",\"locked\":0,\"back\":" + std::to_string(back) + "}");
   g_ex = nullptr;
 }
 
